@@ -26,7 +26,7 @@ import (
 type c17Letter struct {
 	name  string
 	apply func(d ivg.Destination, e *encode.Encoder)
-	class int // protocol class (c10Step); kRead for mode-neutral letters
+	class int  // protocol class (c10Step); kRead for mode-neutral letters
 	opens bool // styling letter that leaves a path open
 }
 
@@ -321,7 +321,11 @@ func newC17State(w *mc.W) *c17State {
 func (st *c17State) encB(e *encode.Encoder, pi, meta int) []byte {
 	m := &c01Metas[[2]int{0, 3}[meta]]
 	e.Reset(m.vb, m.pal)
-	e.HighResolutionCoordinates = c17Progs[pi].hires
+	if c17Progs[pi].hires {
+		// only ever switched on: Reset documents that it clears the flag, and a
+		// reused Encoder must behave like a fresh one without the caller clearing it
+		e.HighResolutionCoordinates = true
+	}
 	c17Progs[pi].run(e)
 	b, err := e.Bytes()
 	if err != nil {
